@@ -16,6 +16,14 @@ CHECKS = {
         "with the same contract (reject) and compares them with the transcription (drift). Bounded-exhaustive, which is where off-by-one, "
         "sign and clamping errors live.",
    ref="5/C17", note=TB + "numpy slicing semantics as specified in spec/lib/PySlice.tla"),
+ "C06": dict(
+   technique="TLA+ protocol model of _mpu.py (MPUOps/MPU) model-checked by TLC over all append/merge/finalise interleavings; TLC behaviours replayed on real MPUChunk ops and real mpu_write graphs run under TLC-chosen task orders; traces validated by TLC (MPUProp)",
+   text="TLC explores every interleaving of appends, adjacent merges (any bracketing - a superset of all dask fold/collate shapes and execution orders) and finalise "
+        "for a bounded configuration space (partition shapes up to 5 partitions, chunk sizes 0..3.3x the minimum part, spill, writes-per-chunk, header/footer, min_part) and checks the "
+        "property invariants in every state; one complete behaviour per distinct terminal state is replayed on the real MPUChunk objects through the module's own dask ops, and the real "
+        "mpu_write(...) graph is executed under schedules TLC draws from the exported task graph (TaskGraph.tla) plus a thread pool. TLC then judges the recorded writer calls with the "
+        "property-level spec MPUProp (reject) and compares per-step states and writer calls with the model (drift). The as-found code is refuted by three dedicated configurations.",
+   ref="5/C06", note=TB + "a recording PartsWriter stands for the storage; dask graph semantics = run each task once after its dependencies"),
 }
 
 NOT_YET = "check not built yet (work in progress); see DESIGN.md"
